@@ -74,6 +74,18 @@ impl HasGenValueInfo for ParserNode {
 
     fn kill_memory_values(&self) -> Vec<MemoryLocation> {
         match self {
+            // Setting or clearing bits leaves a value that is not tracked
+            // (with x0 or 0 as the source, the CSR is only read)
+            ParserNode::Csr(expr)
+                if *expr.inst.get() != CsrType::Csrrw && *expr.rs1.get() != Register::X0 =>
+            {
+                vec![MemoryLocation::CsrRegister(expr.csr.get_cloned())]
+            }
+            ParserNode::CsrI(expr)
+                if *expr.inst.get() != CsrIType::Csrrwi && expr.imm.get().value() != 0 =>
+            {
+                vec![MemoryLocation::CsrRegister(expr.csr.get_cloned())]
+            }
             // A byte or half-word store changes a part of every word that it
             // overlaps
             ParserNode::Store(expr) if expr.rs1.get().is_stack_pointer() => {
